@@ -534,11 +534,10 @@ func oracleShutdown(lr *LifeRun, ix *lifeIndex, r *fw.Result) {
 				r.Add("C03", "alive-after-shutdown", "command of %s (attempt %d, launched seq %d) still alive when ShutDownProject returned (seq %d)", n, l.Att, l.Seq, first)
 			}
 			if l.Seq > first {
-				// allowed only after an explicit start/restart/scale/update request issued after the shutdown returned
-				explicit := hasEventBetween(ix.ev, first, l.Seq, func(e *sim.Event) bool {
-					return e.Kind == sim.EvApiCall && (e.Str == "start" || e.Str == "restart" || e.Str == "scale" || e.Str == "update")
-				})
-				if !explicit {
+				// allowed only for an instance created by an explicit request
+				// (start / restart / scale / update) issued after the shutdown returned
+				is, ok := pl.InstSeq[l.Inst]
+				if !(ok && is > first && ix.apiCreated(n, is)) {
 					r.Add("C03", "launch-after-shutdown", "command of %s launched (seq %d) after ShutDownProject returned (seq %d) without a new start request", n, l.Seq, first)
 				}
 			}
